@@ -2,6 +2,7 @@
 C20 — Each run gets a fresh temp directory, even under races and faults.
 -/
 import LithiumModel.TempDir
+import LithiumProofs.TempDirNames
 
 namespace TempDir
 
@@ -76,6 +77,57 @@ error at once — no retry with the next number -/
 theorem C20_fault (taken : List Nat) (faults : Nat → Option Nat) (e : Nat) (h : faults 1 = some e) :
     createTempDir taken faults = .error e := by
   simp [createTempDir, seqLoop, h]
+
+
+/-! ### the listing as NAMES: what merely looks like a numbered directory takes no number away -/
+
+/-- for EVERY directory listing (any names at all): the run gets `tmpN` with N the lowest number ≥ 1 such that
+exactly the name `"tmp" ++ str N` is not there; `tmp01`, `tmp1.bak`, `Tmp1`, `tmp` are other names -/
+theorem C20_sequential_names (names : List String) :
+    ∃ n, createTempDirN names (fun _ => none) = .ok n ∧ 1 ≤ n ∧ dirName n ∉ names ∧
+      ∀ j, 1 ≤ j → j < n → dirName j ∈ names := by
+  unfold createTempDirN
+  have hf : (names.filter (notSeen 1)).length < names.length + 1 := by
+    have : (names.filter (notSeen 1)).length ≤ names.length := List.length_filter_le _ _
+    omega
+  obtain ⟨n, h1, h2, h3, h4⟩ := seqLoopN_spec names (names.length + 1) 1 hf
+  refine ⟨n, h1, h2, by simpa using h3, ?_⟩
+  intro j hj1 hj2
+  simpa using h4 j hj1 hj2
+
+/-- two listings that agree on which exact names `tmp<i>` exist give the same directory, whatever else they hold -/
+theorem C20_lookalikes_irrelevant (names names' : List String)
+    (h : ∀ i, dirName i ∈ names ↔ dirName i ∈ names') :
+    createTempDirN names (fun _ => none) = createTempDirN names' (fun _ => none) := by
+  obtain ⟨n, h1, h2, h3, h4⟩ := C20_sequential_names names
+  obtain ⟨n', h1', h2', h3', h4'⟩ := C20_sequential_names names'
+  rw [h1, h1']
+  have : n = n' := by
+    rcases Nat.lt_trichotomy n n' with hlt | heq | hgt
+    · exact absurd ((h n).mpr (h4' n h2 hlt)) h3
+    · exact heq
+    · exact absurd ((h n').mp (h4 n' h2' hgt)) h3'
+  rw [this]
+
+/-- the name-level loop is the number-level one of `C20_sequential`/`C20_concurrent` under the obvious reading of a listing -/
+theorem C20_names_refine (names : List String) (taken : List Nat) (faults : Nat → Option Nat)
+    (h : ∀ i, taken.contains i = names.contains (dirName i)) (fuel i : Nat) :
+    seqLoopN names faults fuel i = seqLoop taken faults fuel i := by
+  induction fuel generalizing i with
+  | zero => rfl
+  | succ f ih =>
+    unfold seqLoopN seqLoop
+    cases faults i with
+    | some e => rfl
+    | none => simp only [h i, ih]
+
+theorem C20_fault_names (names : List String) (faults : Nat → Option Nat) (e : Nat) (h : faults 1 = some e) :
+    createTempDirN names faults = .error e := by
+  simp [createTempDirN, seqLoopN, h]
+
+/-- non-vacuity: zero-padded and decorated look-alikes next to a real `tmp2` -/
+example : createTempDirN ["tmp01", "tmp002", "tmp2", "tmp", "tmp1.bak", "Tmp1"] (fun _ => none) = .ok 1 := by rfl
+example : createTempDirN ["tmp01", "tmp1", "tmp2", "tmp"] (fun _ => none) = .ok 3 := by rfl
 
 /-! ### concurrent starts -/
 
